@@ -347,6 +347,44 @@ inline int dfa_run(const Dfa& d, const std::string& s)
     return q < 0 ? -1 : d.label[size_t(q)];
 }
 
+// a member of the language of at least `target` bytes (exactly `target` when the pumped cycle has length 1 or divides the rest): u v^k z with u = a shortest path
+// to a state on a cycle from which an accepting state can be reached, v = a shortest cycle through it, z = a shortest path to acceptance. false = finite language.
+inline bool long_member(const Dfa& d, size_t target, uint64_t pick, std::string& out)
+{
+    const size_t n = d.size(); if (!n) return false;
+    std::vector<int> pred(n, -2), predc(n, 0); std::vector<int> order; pred[0] = -1; order.push_back(0);
+    for (size_t i = 0; i < order.size(); ++i) { int q = order[i]; for (int c = 0; c < 256; ++c) { int t = d.tr[size_t(q)][size_t(c)]; if (t >= 0 && pred[size_t(t)] == -2) { pred[size_t(t)] = q; predc[size_t(t)] = c; order.push_back(t); } } }
+    // co-reachability with a next step towards acceptance
+    std::vector<int> nxt(n, -2), nxtc(n, 0); std::vector<int> work;
+    for (size_t q = 0; q < n; ++q) if (d.label[q] >= 0) { nxt[q] = -1; work.push_back(int(q)); }
+    for (size_t i = 0; i < work.size(); ++i) { int t = work[i]; for (size_t q = 0; q < n; ++q) if (nxt[q] == -2) for (int c = 0; c < 256; ++c) if (d.tr[q][size_t(c)] == t) { nxt[q] = t; nxtc[q] = c; work.push_back(int(q)); break; } }
+    // candidate states on a cycle
+    std::vector<std::pair<int, std::string>> cands;
+    for (int s : order)
+    {
+        if (nxt[size_t(s)] == -2) continue;
+        std::vector<int> p2(n, -2), p2c(n, 0); std::vector<int> o2; bool found = false; int last = -1, lastc = 0;
+        for (int c = 0; c < 256 && !found; ++c) { int t = d.tr[size_t(s)][size_t(c)]; if (t < 0 || nxt[size_t(t)] == -2) continue; if (t == s) { found = true; last = -1; lastc = c; break; } if (p2[size_t(t)] == -2) { p2[size_t(t)] = -1; p2c[size_t(t)] = c; o2.push_back(t); } }
+        std::string v;
+        if (found) v = std::string(1, char(lastc));
+        else
+        {
+            for (size_t i = 0; i < o2.size() && !found; ++i) { int q = o2[i]; for (int c = 0; c < 256; ++c) { int t = d.tr[size_t(q)][size_t(c)]; if (t < 0 || nxt[size_t(t)] == -2) continue; if (t == s) { found = true; last = q; lastc = c; break; } if (p2[size_t(t)] == -2) { p2[size_t(t)] = q; p2c[size_t(t)] = c; o2.push_back(t); } } }
+            if (!found) continue;
+            v = std::string(1, char(lastc)); for (int q = last; q != -1; q = p2[size_t(q)]) v.insert(v.begin(), char(p2c[size_t(q)]));
+        }
+        cands.push_back({s, v});
+        if (cands.size() >= 6) break;
+    }
+    if (cands.empty()) return false;
+    auto& cd = cands[size_t(pick % cands.size())];
+    std::string u; for (int q = cd.first; pred[size_t(q)] != -1; q = pred[size_t(q)]) u.insert(u.begin(), char(predc[size_t(q)]));
+    std::string z; for (int q = cd.first; nxt[size_t(q)] != -1; q = nxt[size_t(q)]) z.push_back(char(nxtc[size_t(q)]));
+    size_t fixed = u.size() + z.size(); size_t k = target > fixed ? (target - fixed + cd.second.size() - 1) / cd.second.size() : 1;
+    out = u; out.reserve(fixed + k * cd.second.size()); for (size_t i = 0; i < k; ++i) out += cd.second; out += z;
+    return true;
+}
+
 // Brzozowski derivatives on the AST (second opinion on single strings)
 struct Deriv
 {
